@@ -19,7 +19,7 @@ from ..common import rng_for, b2j
 LEVEL = "exploration"
 SHARDS = {"quick": 1, "thorough": 16}
 EXHAUSTIVE = True
-REQUIRED = ("inserts_accepted", "inserts_rejected", "tobytes_compared", "pack_calls_monitored", "repo_test_packs_monitored")
+REQUIRED = ("histories_on_buffers_with_another_fill_byte", "inserts_accepted", "inserts_rejected", "tobytes_compared", "pack_calls_monitored", "repo_test_packs_monitored")
 MIN_NONTRIVIAL = 50
 RULE = {
     "quick": "Part A: every history of length<=3 over 36 operations (insert(p,len) p in 0..7 len in 0..3; append(len)) "
@@ -34,19 +34,21 @@ ASSUMPTIONS = [
     "the shadow model (dict position->byte, extent, cursor) is the specification of C11",
     "an *empty* chunk is only required not to alter stored bytes and, when accepted, to extend the extent; "
     "whether it may raise is not fixed by the property and is not judged",
-    "fill byte is the default b'.'",
+    "the fill byte is the one the buffer was created with (default b'.'; one random history in three uses '#', NUL or '-')",
 ]
 
 FILL = 0x2E
+OTHER_FILLS = (0x23, 0x00, 0x2D)     # buffers created with another fill byte (Fragments(fill=...)); never produced by fresh_bytes below
 
 
 class Shadow:
     """Executable specification of the buffer."""
 
-    def __init__(self):
+    def __init__(self, fill=FILL):
         self.bytes = {}
         self.extent = 0
         self.cursor = 0
+        self.fill = fill
 
     def occupied(self, p, n):
         return [q for q in range(p, p + n) if q in self.bytes]
@@ -58,7 +60,7 @@ class Shadow:
         self.cursor = p + len(data)
 
     def render(self):
-        return bytes(self.bytes.get(q, FILL) for q in range(self.extent))
+        return bytes(self.bytes.get(q, self.fill) for q in range(self.extent))
 
 
 def fresh_bytes(counter, n):
@@ -72,11 +74,13 @@ def fresh_bytes(counter, n):
     return bytes(out)
 
 
-def check_history(run, Fragments, ops, label):
+def check_history(run, Fragments, ops, label, fill=FILL):
     """Execute ops on a real Fragments and on the shadow in lock-step.
     ops: list of ('insert', p, n) | ('append', n) | ('extend', [n...]).  Returns False on violation."""
-    fr = Fragments()
-    sh = Shadow()
+    fr = Fragments() if fill == FILL else Fragments(fill=bytes([fill]))
+    sh = Shadow(fill)
+    if fill != FILL:
+        run.count("histories_on_buffers_with_another_fill_byte")
     counter = [1]
     log = []
     empties = []  # positions of accepted empty chunks (for mechanism classification)
@@ -150,7 +154,7 @@ def check_history(run, Fragments, ops, label):
             # extend == successive appends; executed through the real extend(), checked at the end
             chunks = [fresh_bytes(counter, n) for n in op[1]]
             # predict with the shadow
-            pred = Shadow()
+            pred = Shadow(fill)
             pred.bytes = dict(sh.bytes)
             pred.extent, pred.cursor = sh.extent, sh.cursor
             will_raise = False
@@ -181,7 +185,7 @@ def check_history(run, Fragments, ops, label):
                     return False
             else:
                 # partial effects of extend are allowed (earlier chunks stored); resync shadow from model prefix
-                pred2 = Shadow()
+                pred2 = Shadow(fill)
                 pred2.bytes = dict(sh.bytes)
                 pred2.extent, pred2.cursor = sh.extent, sh.cursor
                 for c in chunks:
@@ -264,7 +268,8 @@ def run(run):
                 hist.append(("extend", [rng.choice([0, 1, 2, 3]) for _ in range(rng.randint(1, 3))]))
         run.case(key="B:" + repr(hist), nontrivial=True)
         run.count("partB_histories")
-        check_history(run, Fragments, hist, "B")
+        # one history in three runs on a buffer created with another fill byte (buffers of different fills coexist in a process)
+        check_history(run, Fragments, hist, "B", fill=FILL if h % 3 else OTHER_FILLS[(h // 3) % len(OTHER_FILLS)])
         if h < 2:
             run.sample({"part": "B", "ops": hist})
         if run.counters["violations"] > 20:
